@@ -10,10 +10,10 @@ git checkout -q -- . && git clean -fdq
 git apply "$patch" || { echo "patch does not apply"; exit 2; }
 echo "--- suite with patch"
 go build ./... && go test -vet=off -count=1 ./... 2>&1 | tail -12
-cp "$demo" "$dest"
+mkdir -p "$(dirname "$dest")"; cp "$demo" "$dest"
 echo "--- demo with patch (expect FAIL)"
 "$@" 2>&1 | tail -15; echo "demo exit with patch: ${PIPESTATUS[0]}"
-rm -f "$dest"; git checkout -q -- . ; cp "$demo" "$dest"
+rm -f "$dest"; git checkout -q -- . ; mkdir -p "$(dirname "$dest")"; cp "$demo" "$dest"
 echo "--- demo without patch (expect PASS)"
 "$@" 2>&1 | tail -6; echo "demo exit without patch: ${PIPESTATUS[0]}"
 rm -f "$dest"; git checkout -q -- . && git clean -fdq
